@@ -156,7 +156,7 @@ fn combo<C: Combo>(sink: &mut Sink, rng: &mut Rng, thorough: bool) {
     mi += stride;
   }
   // random deep
-  let n = if thorough { 3000 } else { 250 };
+  let n = if thorough { 9000 } else { 250 };
   for _ in 0..n {
     let d = rng.below(max_depth as u64 + 1) as u8;
     let l = random_moc_ranges::<C::T, C::Q>(rng, d, 12);
